@@ -82,7 +82,11 @@ ExtraSet ==
 XmlOK(e) == ("xml" \notin Fmts) \/ e[1] # "label" \/ e[2] \in {"str", "empty", "lang", "none", "nasty", "nastylang"}
 (* FinalOp = "Export" (C13): Fmts is the set of exporters; every ordered pair and a triple repetition *)
 ExportSeqs == {<<a, b>> : a \in Fmts, b \in Fmts} \cup {<<a, a, a>> : a \in Fmts}
-Final == IF FinalOp = "Export"
+(* FinalOp = "Dot" (C15): every combination of the display options; Opts = directions *)
+DotFinal == {[op |-> "Dot", h |-> "d1",
+              opts |-> [nary |-> a, labels |-> b, elattrs |-> c, relattrs |-> d, dir |-> o]]
+               : a \in BOOLEAN, b \in BOOLEAN, c \in BOOLEAN, d \in BOOLEAN, o \in Opts}
+Final == IF FinalOp = "Dot" THEN DotFinal ELSE IF FinalOp = "Export"
          THEN {[op |-> "Export", h |-> "d1", seq |-> q] : q \in ExportSeqs}
          ELSE {[op |-> FinalOp, h |-> "d1", fmt |-> f, opts |-> o] : f \in Fmts, o \in Opts}
 ExtrasOf(e) == [i \in 1..Len(Vals[e[2]]) |-> <<AttrNames[e[1]], Vals[e[2]][i]>>]
@@ -135,6 +139,8 @@ GraphActs ==
     GR("agent", <<NamePL("ex", X)>>, <<>>, <<>>),
     GR("activity", <<NamePL("ex", Y)>>, << <<"startTime", [t |-> "dt", v |-> "t1"]>> >>, <<>>),
     GR("entity", <<NamePL("ex", Y)>>, <<>>, << <<NamePL("prov", <<"label">>), [t |-> "str", v |-> "s2"]>> >>),
+    GR("agent", <<NamePL("ex", Z)>>, <<>>, << <<NamePL("prov", <<"label">>), [t |-> "str", v |-> "nq"]>>,
+                                             <<NameQN("ex", A, <<"attr">>), [t |-> "str", v |-> "nq"]>> >>),
     GR("generation", <<>>, << <<"entity", Rf(X)>>, <<"activity", Rf(Y)>> >>, <<>>),
     GR("generation", <<NamePL("ex", <<"g">>)>>, << <<"entity", Rf(X)>>, <<"activity", Rf(Y)>>, <<"time", [t |-> "dt", v |-> "t1"]>> >>,
        << <<NamePL("prov", <<"role">>), [t |-> "str", v |-> "s1"]>> >>),
